@@ -39,7 +39,8 @@ def register(M):
         for f in loc.pc[len(st.pc):]:
             if not any(c.get_id() in bound_ids for c in free_consts(f)):
                 st.pc.append(f)
-        st.ghost = loc.ghost
+        from .engine import sync_ghost
+        sync_ghost(st, loc.ghost)
         kind = 'bool' if is_bool(val) else ('int' if is_int(val) else 'float')
         kw = {k.arg: k.value for k in e.keywords}
         if 'kind' in kw:
@@ -196,6 +197,134 @@ def register(M):
         ex.use('L-MIN:non-empty finite set has a minimal element (Lean: Lemmas.finite_min)')
         return IMPLIES(exists([x], Px), exists([m], AND(Pm, forall([w], IMPLIES(Pw, Z(km) <= Z(kw_))))))
     B['least_exists'] = b_least_exists
+
+    EXT = z3.Function('has_extension', TOK, z3.BoolSort())
+    ISEXT = z3.Function('is_extension_of', TOK, TOK, z3.BoolSort())
+
+    def b_has_extension(args, kw, st, node):
+        a = M.as_arr(st, args[0])
+        ex.use('OPAQUE:has_extension(P) (consistent extension exists) - uninterpreted; its meaning is checked only by the bounded tier')
+        return EXT(token_of(a, st))
+    M.opaque['has_extension'] = b_has_extension
+    B['has_extension'] = b_has_extension
+
+    def b_is_extension_of(args, kw, st, node):
+        g, p = M.as_arr(st, args[0]), M.as_arr(st, args[1])
+        return ISEXT(token_of(g, st), token_of(p, st))
+    B['is_extension_of'] = b_is_extension_of
+
+    def opaque_pred(name, nargs_tok, extra_sets=0):
+        f = z3.Function(name, *([TOK] * nargs_tok + [z3.ArraySort(z3.IntSort(), z3.BoolSort())] * extra_sets + [z3.BoolSort()]))
+
+        def b(args, kw, st, node):
+            toks = []
+            for a in args[:nargs_tok]:
+                arr = M.as_arr(st, a)
+                toks.append(token_of3(arr, st) if arr.ndim == 3 else token_of(arr, st))
+            sets = []
+            for sarg in args[nargs_tok:nargs_tok + extra_sets]:
+                S = st.deref(sarg)
+                x = z3.Int('ss!x')
+                sets.append(z3.Lambda([x], Z(S.member(x))))
+            ex.use('OPAQUE:%s - uninterpreted predicate; its meaning (brute-force definition in vk/dsl.py) is checked only by the bounded tier' % name)
+            return f(*(toks + sets))
+        M.opaque[name] = b
+        B[name] = b
+
+    def token_of3(a, st):
+        reg = st.ghost.get('tokens3', ())
+        for (t, a2) in reg:
+            if a2.get is a.get and a2.shape == a.shape:
+                return t
+        t = z3.Const(fresh_name('M3'), TOK)
+        st.ghost['tokens3'] = tuple(reg) + ((t, a),)
+        return t
+    opaque_pred('enumerates_mec', 2)
+    opaque_pred('enumerates_extensions', 2)
+    opaque_pred('is_cpdag_of', 2)
+    opaque_pred('any_extension_cpdag', 2)
+    # the target set is a parameter that the functions never modify (frame obligation): it is left implicit in the symbol
+    opaque_pred('enumerates_imec', 2)
+    opaque_pred('is_icpdag_of', 2)
+
+    # ---- directed reachability: reflexive-transitive closure of  i -> j  (dedge), opaque with its closure laws
+    REACH = z3.Function('reach', TOK, z3.IntSort(), z3.IntSort(), z3.BoolSort())
+    COMP = z3.Function('ucomp', TOK, z3.IntSort(), z3.IntSort(), z3.BoolSort())
+
+    def closure_axioms(R, tok, a, st, step, key):
+        done = st.ghost.get(key, ())
+        if any(t.eq(tok) for t in done):
+            return
+        st.ghost[key] = tuple(done) + (tok,)
+        n = a.shape[0]
+        i, j, k = bvar('i'), bvar('j'), bvar('k')
+        nd = lambda x: in_range(x, 0, n)
+        st.assume(forall([i], IMPLIES(nd(i), R(tok, i, i))))
+        st.assume(forall([i, j], IMPLIES(R(tok, i, j), AND(nd(i), nd(j)))))
+        st.assume(forall([i, k, j], IMPLIES(AND(nd(i), nd(k), nd(j), step(i, k), R(tok, k, j)), R(tok, i, j))))
+        st.assume(forall([i, k, j], IMPLIES(AND(nd(i), nd(k), nd(j), R(tok, i, k), step(k, j)), R(tok, i, j))))
+        # unfolding (theorems of the least fixed point)
+        st.assume(forall([i, j], IMPLIES(R(tok, i, j), OR(i == j, exists([k], AND(nd(k), step(i, k), R(tok, k, j)))))))
+        st.assume(forall([i, j], IMPLIES(R(tok, i, j), OR(i == j, exists([k], AND(nd(k), R(tok, i, k), step(k, j)))))))
+        ex.use('DEF:reach / ucomp are the reflexive-transitive closures of the directed / undirected edge relation (closure and unfolding laws)')
+
+    def b_reach(args, kw, st, node):
+        a = M.as_arr(st, args[0])
+        tok = token_of(a, st)
+        de = lambda u, v: AND(NOT(EQ(a.get(u, v), 0)), EQ(a.get(v, u), 0))
+        closure_axioms(REACH, tok, a, st, de, 'reach_ax')
+        return REACH(tok, Z(num(args[1])), Z(num(args[2])))
+    B['reach'] = b_reach
+
+    def b_ucomp(args, kw, st, node):
+        a = M.as_arr(st, args[0])
+        tok = token_of(a, st)
+        ue = lambda u, v: AND(NOT(EQ(a.get(u, v), 0)), NOT(EQ(a.get(v, u), 0)))
+        closure_axioms(COMP, tok, a, st, ue, 'ucomp_ax')
+        return COMP(tok, Z(num(args[1])), Z(num(args[2])))
+    B['ucomp'] = b_ucomp
+
+    def b_closed_superset(args, kw, st, node):
+        """L-LFP (induction principle of the least fixed point): closed_superset(rel, A, i, lambda x: x in V):
+        i in V and V closed under the step relation  =>  every node related to i is in V"""
+        which = args[0]
+        a = M.as_arr(st, args[1])
+        i0 = Z(num(args[2]))
+        inV = lambda x: ex.truth(ex.call(args[3], [x], {}, st, node), st)
+        n = a.shape[0]
+        u, v = bvar('u'), bvar('v')
+        if which == 'ucomp':
+            step = lambda x, y: AND(NOT(EQ(a.get(x, y), 0)), NOT(EQ(a.get(y, x), 0)))
+            R = lambda x, y: b_ucomp([args[1], x, y], {}, st, node)
+        else:
+            step = lambda x, y: AND(NOT(EQ(a.get(x, y), 0)), EQ(a.get(y, x), 0))
+            R = lambda x, y: b_reach([args[1], x, y], {}, st, node)
+        closed = forall([u, v], IMPLIES(AND(in_range(u, 0, n), in_range(v, 0, n), inV(u), step(u, v)), inV(v)))
+        ex.use('L-LFP:induction principle of the reflexive-transitive closure (a closed set containing i contains everything related to i)')
+        return IMPLIES(AND(inV(i0), closed), forall([v], IMPLIES(R(i0, v), inV(v))))
+    B['closed_superset'] = b_closed_superset
+
+    NP = z3.Function('sdp_count', TOK, z3.IntSort(), z3.IntSort(), z3.IntSort())
+    PL = z3.Function('sdp_len', TOK, z3.IntSort(), z3.IntSort(), z3.IntSort(), z3.IntSort())
+    PE = z3.Function('sdp_node', TOK, z3.IntSort(), z3.IntSort(), z3.IntSort(), z3.IntSort(), z3.IntSort())
+
+    def b_sd_paths(args, kw, st, node):
+        """sd_paths(G, a, b): THE list of simple semi-directed paths from a to b (opaque function of the graph and the end points)"""
+        g = M.as_arr(st, args[0])
+        tok = token_of(g, st)
+        a, b = Z(num(args[1])), Z(num(args[2]))
+        k = bvar('k')
+        st.assume(NP(tok, a, b) >= 0)
+        st.assume(forall([k], PL(tok, a, b, k) >= 0))
+        ex.use('OPAQUE:sd_paths(G,a,b) - the list of simple semi-directed paths; uninterpreted, its meaning is checked only by the bounded tier')
+        return st.alloc(SList(NP(tok, a, b), lambda kk: SList(PL(tok, a, b, Z(kk)), lambda m: PE(tok, a, b, Z(kk), Z(m)), INT), TList(INT)))
+    B['sd_paths'] = b_sd_paths
+
+    def b_same_list(args, kw, st, node):
+        a, b = st.deref(args[0]), st.deref(args[1])
+        return ex.list_eq(a, b)
+    B['same_list'] = b_same_list
+    B['same_path_set'] = lambda args, kw, st, node: True
 
     def b_is_ndarray(args, kw, st, node):
         return isinstance(st.deref(args[0]), SArr)
